@@ -4,7 +4,11 @@
 (* Every step below is one critical section of the code (the locks it      *)
 (* holds are named), so steps of different threads interleave freely:      *)
 (*                                                                         *)
-(*  writer     "w"  W   append_entry (version read lock) + publish seqno   *)
+(*  writer     "w"  W   seqno.next() + append_entry (version read lock) +  *)
+(*                      publish, as one step (SplitW = FALSE), or          *)
+(*                  W0  seqno.next() by the caller                         *)
+(*                  W1  append_entry (version read lock) + publish         *)
+(*                      (SplitW = TRUE: other threads run in between)      *)
 (*  flusher    "f"  F0  rotate_memtable            (version write lock)    *)
 (*                  F1  flush: collect sealed ids + build the stream       *)
 (*                          (version lock; released before writing)        *)
@@ -20,6 +24,10 @@
 (*                          then (compaction state + version write), show, *)
 (*                          maintenance                                    *)
 (*  clearer    "k"  K   clear (version write lock only)                    *)
+(*  dropper    "d"  D   drop_range(..) over everything: takes the major     *)
+(*                      compaction lock exclusively, so it runs only while *)
+(*                      no compaction is in flight and is one step         *)
+(*                      (compaction state + version write lock)            *)
 (*  rotator    "r"  R   rotate_memtable from any other thread (a writer    *)
 (*                      that found the memtable full): version write lock  *)
 (*                                                                         *)
@@ -37,12 +45,14 @@ CONSTANTS CKeys, CVals,      \* keys / values
           NFlushes,          \* rotate+flush rounds of the flusher
           NCompactions,      \* compactions of the compactor
           NRotates,          \* rotations by the rotator
-          Procs,             \* subset of {"w", "f", "c", "k", "r"}
-          Guard287           \* TRUE: register_tables checks that the memtables still exist
+          Procs,             \* subset of {"w", "f", "c", "k", "r", "d"}
+          Guard287,          \* TRUE: register_tables checks that the memtables still exist
+          SplitW             \* TRUE: allocating the seqno and inserting are two steps
 
-VARIABLES st, A, pc, loc, hid, sched
+VARIABLES st, A, pc, loc, hid, sched,
+          pub                \* what the writer has published: 1 + seqno of its last finished write
 
-cvars == <<st, A, pc, loc, hid, sched>>
+cvars == <<st, A, pc, loc, hid, sched, pub>>
 
 ValAtC(s) == (CHOOSE f \in [0..Cardinality(CVals)-1 -> CVals] :
                 \A i, j \in DOMAIN f : i < j => f[i] < f[j])[s % Cardinality(CVals)]
@@ -51,16 +61,19 @@ CInit ==
     /\ st = InitState
     /\ A = AInit
     /\ pc = [p \in Procs |-> CASE p = "w" -> "W" [] p = "f" -> "F0" [] p = "c" -> "C1" [] p = "k" -> "K"
-                                [] p = "r" -> "R"]
+                                [] p = "r" -> "R" [] p = "d" -> "D"]
     /\ loc = [p \in Procs |-> [n |-> 0]]
     /\ hid = {}
     /\ sched = <<>>
+    /\ pub = 0
 
 Sched(p, step, arg) == sched' = Append(sched, [p |-> p, step |-> step, arg |-> arg])
 
 \* ---------------------------------------------------------------- writer
 W ==
+    /\ ~SplitW
     /\ "w" \in Procs /\ pc["w"] = "W" /\ loc["w"].n < NWrites
+    /\ pub' = st.seq + 1
     /\ \E k \in CKeys, t \in {"V", "T"} :
          LET it == [k |-> k, t |-> t, v |-> IF t = "V" THEN ValAtC(st.seq) ELSE NoVal]
              e  == [k |-> k, s |-> st.seq, t |-> t, v |-> it.v] IN
@@ -69,6 +82,29 @@ W ==
          /\ loc' = [loc EXCEPT !["w"].n = @ + 1]
          /\ Sched("w", "write", it)
     /\ UNCHANGED <<pc, hid>>
+
+W0 ==
+    /\ SplitW
+    /\ "w" \in Procs /\ pc["w"] = "W" /\ loc["w"].n < NWrites
+    /\ st' = [st EXCEPT !.seq = @ + 1]
+    /\ loc' = [loc EXCEPT !["w"] = [n |-> @.n, s |-> st.seq]]
+    /\ pc' = [pc EXCEPT !["w"] = "W1"]
+    /\ Sched("w", "alloc", 0)
+    /\ UNCHANGED <<A, hid, pub>>
+
+W1 ==
+    /\ "w" \in Procs /\ pc["w"] = "W1"
+    /\ \E k \in CKeys, t \in {"V", "T"} :
+         LET s  == loc["w"].s
+             it == [k |-> k, t |-> t, v |-> IF t = "V" THEN ValAtC(s) ELSE NoVal]
+             e  == [k |-> k, s |-> s, t |-> t, v |-> it.v] IN
+         /\ st' = OpWriteAt(st, {it}, s)
+         /\ A' = AWrite(A, {e})
+         /\ loc' = [loc EXCEPT !["w"] = [n |-> @.n + 1]]
+         /\ pub' = s + 1
+         /\ Sched("w", "write", it)
+    /\ pc' = [pc EXCEPT !["w"] = "W"]
+    /\ UNCHANGED hid
 
 \* ---------------------------------------------------------------- flusher
 F0 ==
@@ -175,7 +211,19 @@ R ==
     /\ Sched("r", "rotate", 0)
     /\ UNCHANGED <<pc, hid>>
 
-CNext == W \/ F0 \/ F1 \/ F2 \/ F3 \/ C1 \/ C2 \/ C3 \/ K \/ R
+\* ---------------------------------------------------------------- drop_range
+\* major_compaction_lock.write(): waits for the compactor to be at rest, excludes it meanwhile
+D ==
+    /\ "d" \in Procs /\ pc["d"] = "D" /\ loc["d"].n = 0
+    /\ ("c" \in Procs => pc["c"] = "C1")
+    /\ st' = OpDropRange(st, FullBounds)
+    /\ A' = ADropRange(A, CKeys, st.seq)
+    /\ loc' = [loc EXCEPT !["d"].n = 1]
+    /\ Sched("d", "droprange", 0)
+    /\ UNCHANGED <<pc, hid>>
+
+CNext == W \/ W0 \/ W1
+         \/ ((F0 \/ F1 \/ F2 \/ F3 \/ C1 \/ C2 \/ C3 \/ K \/ R \/ D) /\ UNCHANGED pub)
 CSpec == CInit /\ [][CNext]_cvars
 
 -----------------------------------------------------------------------------
@@ -187,6 +235,12 @@ ConcReadsRefine == PReadsRefine(st, A, CKeys)
 ConcScansRefine == PScansRefine(st, A)
 ConcStructure   == PStructureSound(st)
 HiddenAtRest    == ("c" \in Procs /\ pc["c"] = "C1") => hid = {}
+\* reads at the snapshot the writer has published (known finding C06-late-insert excluded)
+ConcPubReads ==
+    pub = 0 \/ \A k \in CKeys \ LateInsertKeys(st, pub) :
+                 Defined(A, k, pub) => ReadAt(st, k, pub) = Oracle(A, k, pub)
+\* witness (expected to be VIOLATED when SplitW): the known finding is reachable
+NoLateInsert == pub = 0 \/ LateInsertKeys(st, pub) = {}
 
-ViewConc == <<st, A, pc, loc, hid>>
+ViewConc == <<st, A, pc, loc, hid, pub>>
 =============================================================================
